@@ -10,6 +10,13 @@ COMMON_NOTE = ("Trusted base: TLC 1.8 evaluating the TLA+ specification in /veri
                "assumption of DESIGN 2.5 for the exhaustive part; simulated / random traces go beyond it.")
 
 CHECKS = {
+ "C17": dict(engine="Helpers", design="3/C17",
+   text=("TLC model-checks Helpers (Lin/Unlin bijection and stride law for every shape in scope, set-algebra "
+         "laws of the row helpers, mode-selection laws, Khatri-Rao associativity and Kronecker row formula) "
+         "and enumerates every helper call in scope with its canonical result; every call is executed on the "
+         "real helper and the recorded events are validated by TLC against Helpers_Trace, whose actions "
+         "accept exactly the admissible results (set-level for the row helpers, exact elsewhere)."),
+   technique="TLA+ spec Helpers; TLC exhaustive generation + law invariants; replay into pyttb_utils/khatrirao; TLC trace validation"),
  "C07": dict(engine="IndexMaps", design="3/C07",
    text=("TLC model-checks IndexMaps (laws: inverse permutation, reshape round trip, F-order flat "
          "invariance, holder commutation) and enumerates every behaviour (all shapes in scope x all mode "
